@@ -379,8 +379,13 @@ fn c14_maintenance_round_drops_stale_nodes_and_pings_the_quiet_ones() {
     kani::assume(age1 <= 2_000_000 && age2 <= 2_000_000);
     let n1 = crate::common::verif_kani::node::node_aged(id1(0x10), SocketAddrV4::new(11u32.into(), 11), age1);
     let n2 = crate::common::verif_kani::node::node_aged(id1(0x20), SocketAddrV4::new(12u32.into(), 12), age2);
-    crate::common::verif_kani::routing_table::place_pub(&mut c.routing_table, n1);
-    crate::common::verif_kani::routing_table::place_pub(&mut c.signed_peers_routing_table, n2);
+    // stack-backed bucket buffers (CBMC folds loops over stack slices, not over heap ones)
+    let mut s1: [core::mem::MaybeUninit<Node>; 2] = unsafe { core::mem::MaybeUninit::uninit().assume_init() };
+    let mut s2: [core::mem::MaybeUninit<Node>; 2] = unsafe { core::mem::MaybeUninit::uninit().assume_init() };
+    s1[0].write(n1);
+    s2[0].write(n2);
+    crate::common::verif_kani::routing_table::insert_bucket(&mut c.routing_table, unsafe { Vec::from_raw_parts(s1.as_mut_ptr() as *mut Node, 1, 2) });
+    crate::common::verif_kani::routing_table::insert_bucket(&mut c.signed_peers_routing_table, unsafe { Vec::from_raw_parts(s2.as_mut_ptr() as *mut Node, 1, 2) });
     let to_ping = c.check_nodes_to_ping_and_remove_stale_nodes();
     let stale1 = age1 > 900_000;
     let stale2 = age2 > 900_000;
